@@ -421,5 +421,5 @@ Proof.
       unfold slot_of. rewrite Hl.
       replace (n - 2 ^ (h - 1)) with (2 ^ (h - 1) - 1) by lia.
       rewrite rev_ones by lia.
-      replace (2 ^ (h - 1) + (2 ^ (h - 1) - 1)) with n by lia. do 3 f_equal. lia.
+      replace (2 ^ (h - 1) + (2 ^ (h - 1) - 1)) with n by lia. reflexivity.
 Qed.
